@@ -6,8 +6,10 @@ import (
 )
 
 // Level is one entry of the container stack after a token: kind '{', '[' or 0 (top
-// level) and the number of tokens-as-values read inside it (names and values counted
-// separately for objects), as documented for StackIndex.
+// level) and the number of names/values read inside it so far (names and values counted
+// separately for objects, a nested container counted from its opening token on), as
+// documented for StackIndex ("length decoded so far") and required by StackPointer
+// (an array element being read has index length-1).
 type Level struct {
 	Kind byte
 	Len  int64
@@ -111,7 +113,6 @@ func tokenize(b []byte, o Opts, full bool) (toks []Tok, errOff int, complete boo
 			}
 			st := f.start
 			stack = stack[:len(stack)-1]
-			valueDone()
 			i++
 			emit(c, i-1, i, "", false, st)
 			continue
@@ -188,6 +189,7 @@ func tokenize(b []byte, o Opts, full bool) (toks []Tok, errOff int, complete boo
 				return toks, i, false
 			}
 			i++
+			valueDone() // a container counts in its parent as soon as it begins
 			stack = append(stack, sframe{obj: c == '{', start: start})
 			emit(c, start, i, "", false, -1)
 		default:
